@@ -2,6 +2,7 @@ package larking
 
 import (
 	"context"
+	"fmt"
 	"net"
 
 	"github.com/gobwas/ws"
@@ -15,6 +16,7 @@ import (
 const kindWebsocket = "WEBSOCKET"
 
 type streamWS struct {
+	opts       muxOptions
 	ctx        context.Context
 	conn       net.Conn
 	method     *method
@@ -90,6 +92,9 @@ func (s *streamWS) RecvMsg(m interface{}) error {
 		b, _, err := wsutil.ReadClientData(s.conn)
 		if err != nil {
 			return err
+		}
+		if len(b) > s.opts.maxReceiveMessageSize {
+			return fmt.Errorf("max receive message size reached")
 		}
 
 		// TODO: contentType check?
